@@ -9,6 +9,15 @@ TB = ("trusted base: rustc's MIR construction and Instance resolution for the re
       "mir-opt-level 0, overflow checks on), the fact extractor /verif/driver, std/rpds/arcstr behaving as documented")
 
 CLAIMS = {
+ 'C10': dict(
+   technique="MIR acquire/release path analysis on all `?`/error exits + control-dependence (custom rustc_private extractor, Python rules)",
+   text=("Static, all error exits: from the Ok edge of context_open in every build entry, every path to a return that can carry an Err passes a "
+         "release function; every path of the release function either restores ctx from the saved context on `nested` and truncates input, "
+         "pending flows, code, debug map and dictionary to the build-entry marks, or halts a built-but-failed program; context_close never drops "
+         "a popped context; a halt write guarded only by the failed-run flag sits on the failing-run -> compile -> run protocol path and the flag "
+         "is set on every failing step; the REPL snapshot update is control-dependent on the line succeeding. Does not decide that the marks "
+         "make the interpreter observationally identical."),
+   ref='§3 C10'),
  'C13': dict(
    technique="MIR scrutinee-provenance analysis over the decoded word registry + who-may-call rules (custom rustc_private extractor, Python rules)",
    text=("Static, all words x all argument positions: every discriminant switch on a Cell in a function reachable from any dictionary word is "
